@@ -232,6 +232,69 @@ def build(run):
     for nm, e in math_exprs:
         run.add(f"evaluate-numeric/{nm}", num_ob(nm, e), kind="bounded")
 
+    # ---- language operators that are BUILT from conditionals / comparisons (sign, max_value, min_value, abs, the six comparisons and the
+    # logical connectives): their point values against the mathematical definition written here, independently of how the library constructs
+    # them (a spec taken from the constructed expression cannot see a construction that is itself wrong, e.g. at ties or at zero).
+    def operator_definitions():
+        F, G = z3.Real(sym_name(f, ())), z3.Real(sym_name(g, ()))
+        ite, one, zero = z3.If, z3.RealVal(1), z3.RealVal(0)
+        sgn = lambda T: ite(T > 0, one, ite(T < 0, -one, zero))     # noqa: E731
+        cases = [
+            ("sign(f)", lambda: sign(f), sgn(F)), ("sign(f - g)", lambda: sign(f - g), sgn(F - G)), ("g*sign(f*g)", lambda: g * sign(f * g), G * sgn(F * G)),
+            ("3 + 2*sign(f)", lambda: 3 + 2 * sign(f), 3 + 2 * sgn(F)), ("sign(-f)", lambda: sign(-f), -sgn(F)),
+            ("max_value(f, g)", lambda: max_value(f, g), ite(F >= G, F, G)), ("min_value(f, g)", lambda: min_value(f, g), ite(F <= G, F, G)),
+            ("max_value(f, 0)", lambda: max_value(f, 0), ite(F >= 0, F, zero)), ("min_value(0, f)", lambda: min_value(0, f), ite(F <= 0, F, zero)),
+            ("abs(f)", lambda: abs(f), ite(F >= 0, F, -F)), ("abs(f - g)", lambda: abs(f - g), ite(F >= G, F - G, G - F)),
+            ("f >= g", lambda: conditional(ge(f, g), 1, 0), ite(F >= G, one, zero)), ("f > g", lambda: conditional(gt(f, g), 1, 0), ite(F > G, one, zero)),
+            ("f <= g", lambda: conditional(le(f, g), 1, 0), ite(F <= G, one, zero)), ("f < g", lambda: conditional(lt(f, g), 1, 0), ite(F < G, one, zero)),
+            ("f == g", lambda: conditional(eq(f, g), 1, 0), ite(F == G, one, zero)), ("f != g", lambda: conditional(ne(f, g), 1, 0), ite(F != G, one, zero)),
+            ("overloaded f >= g", lambda: conditional(f >= g, 1, 0), ite(F >= G, one, zero)), ("overloaded f > g", lambda: conditional(f > g, 1, 0), ite(F > G, one, zero)),
+            ("overloaded f <= g", lambda: conditional(f <= g, 1, 0), ite(F <= G, one, zero)), ("overloaded f < g", lambda: conditional(f < g, 1, 0), ite(F < G, one, zero)),
+            ("f >= 2 (literal)", lambda: conditional(ge(f, 2), 1, 0), ite(F >= 2, one, zero)), ("2 >= f (literal)", lambda: conditional(ge(2, f), 1, 0), ite(F <= 2, one, zero)),
+            ("And", lambda: conditional(And(ge(f, 0), le(f, g)), 1, 0), ite(z3.And(F >= 0, F <= G), one, zero)),
+            ("Or", lambda: conditional(Or(gt(f, 0), ge(g, f)), 1, 0), ite(z3.Or(F > 0, G >= F), one, zero)),
+            ("Not", lambda: conditional(Not(ge(f, g)), 1, 0), ite(F < G, one, zero)),
+            ("conditional(f >= g, f, g) - max", lambda: conditional(ge(f, g), f, g) - max_value(g, f), zero),
+        ]
+        nv = 0
+        for nm_, mk_, spec in cases:
+            e_ = mk_()
+
+            def fn(e_=e_):
+                return e_((SymReal("x[0|]"), SymReal("x[1|]")), mapping_sym())
+            paths, complete = explore(fn, lambda: ())
+            if not complete:
+                return undecided(f"{nm_}: path cap")
+            for p in paths:
+                if p.kind == "exc":
+                    return violated(f"{nm_}: evaluation raised {type(p.value).__name__}: {p.value}", reproduced=True, replay={"expr": str(e_)})
+                got = p.value.t if isinstance(p.value, SymReal) else z3.RealVal(str(Fraction(p.value).limit_denominator(10 ** 9)))
+                nv += 1
+                vd = check_formula(list(p.pc), got == spec, 20000)
+                if vd.status == "proved":
+                    continue
+                if vd.status == "refuted":
+                    return violated(f"{nm_}: the point value of {e_} differs from the mathematical definition at {vd.model} (evaluation gives {z3.simplify(got)} on the path {[str(q) for q in p.pc]})",
+                                    replay={"expr": str(e_), "model": vd.model, "got": str(got)[:300], "spec": str(spec)[:300]}, reproduced=True, backend="z3")
+                return undecided(f"{nm_}: z3 unknown")
+        # concrete boundary values as well (ints, floats, negative zero), through the real float path
+        conc = 0
+        for nm_, mk_, want in [("sign", lambda: sign(f), lambda a, b: (a > 0) - (a < 0)), ("sign(f-g)", lambda: sign(f - g), lambda a, b: (a > b) - (a < b)),
+                               ("ge", lambda: conditional(ge(f, g), 1, 0), lambda a, b: int(a >= b)), ("le", lambda: conditional(le(f, g), 1, 0), lambda a, b: int(a <= b)),
+                               ("gt", lambda: conditional(gt(f, g), 1, 0), lambda a, b: int(a > b)), ("lt", lambda: conditional(lt(f, g), 1, 0), lambda a, b: int(a < b)),
+                               ("eq", lambda: conditional(eq(f, g), 1, 0), lambda a, b: int(a == b)), ("ne", lambda: conditional(ne(f, g), 1, 0), lambda a, b: int(a != b)),
+                               ("max", lambda: max_value(f, g), lambda a, b: max(a, b)), ("min", lambda: min_value(f, g), lambda a, b: min(a, b)), ("abs", lambda: abs(f), lambda a, b: abs(a))]:
+            e_ = mk_()
+            for a_ in (0, 0.0, -0.0, 1.5, -1.5, 2, -2):
+                for b_ in (0, 0.0, 1.5, -1.5, 2):
+                    got = e_((0.3, 0.7), {f: a_, g: b_})
+                    conc += 1
+                    if got != want(a_, b_):
+                        return violated(f"{nm_}: {e_} evaluates to {got} with f={a_!r}, g={b_!r}; the mathematical value is {want(a_, b_)}",
+                                        replay={"expr": str(e_), "f": repr(a_), "g": repr(b_)}, reproduced=True, backend="exec")
+        return proved("z3(path-exhaustive)", vcs=nv, sample=f"{len(cases)} operators against their definitions on all paths ({nv} VCs) and {conc} concrete boundary evaluations")
+    run.add("operators/comparison-built-operators-have-their-mathematical-point-values", operator_definitions, kind="values")
+
     # ---- guarded conditionals: the UNSELECTED branch is undefined at the point (division by zero, ln / sqrt of a negative number, a mapped callable
     # that raises).  Contract: e(x, mapping) is the value of the selected branch; evaluating must not touch the other branch.
     def guarded():
